@@ -233,6 +233,8 @@ func runC17(c *Ctx) {
 	checkMountDataSource(c, "mount.data-source")
 	checkReadAtExits(c, "plumbing.readat-exits")
 	checkMountLeafSizeAfterDescriptor(c, "mount.leaf-size-after-descriptor")
+	checkGetBuildsItsReader(c, "plumbing.get-builds-its-reader")
+	checkWriteToCountsWhatItCopied(c, "plumbing.writeto-counts-what-it-copied")
 }
 
 // guardedUpdateFails: `if _, update := X.Insert(k, v); update { return <non-nil error> }`
